@@ -285,14 +285,18 @@ func (self *BinaryConv) unmarshalList(ctx context.Context, resp http.ResponseSet
 		start := p.Read
 		// parse Value repeated
 		for p.Read < start+len {
-			self.unmarshalSingular(ctx, resp, p, out, fd.Elem())
+			if err := self.unmarshalSingular(ctx, resp, p, out, fd.Elem()); err != nil {
+				return err
+			}
 			if p.Read != start && p.Read != start+len {
 				*out = json.EncodeArrayComma(*out)
 			}
 		}
 	} else {
 		// unpackedList(format)：[Tag][Length][Value] [Tag][Length][Value]....
-		self.unmarshalSingular(ctx, resp, p, out, fd.Elem())
+		if err := self.unmarshalSingular(ctx, resp, p, out, fd.Elem()); err != nil {
+			return err
+		}
 		for p.Read < len(p.Buf) {
 			elementFieldNumber, _, tagLen, err := p.ConsumeTagWithoutMove()
 
@@ -305,7 +309,9 @@ func (self *BinaryConv) unmarshalList(ctx context.Context, resp http.ResponseSet
 			}
 			*out = json.EncodeArrayComma(*out)
 			p.Read += tagLen
-			self.unmarshalSingular(ctx, resp, p, out, fd.Elem())
+			if err := self.unmarshalSingular(ctx, resp, p, out, fd.Elem()); err != nil {
+				return err
+			}
 		}
 	}
 
@@ -320,7 +326,7 @@ func (self *BinaryConv) unmarshalMap(ctx context.Context, resp http.ResponseSett
 	fileldNumber := (*fd).BaseId()
 	_, lengthErr := p.ReadLength()
 	if lengthErr != nil {
-		return wrapError(meta.ErrRead, "parse Tag length error", err)
+		return wrapError(meta.ErrRead, "parse Tag length error", lengthErr)
 	}
 
 	*out = json.EncodeObjectBegin(*out)
@@ -328,15 +334,15 @@ func (self *BinaryConv) unmarshalMap(ctx context.Context, resp http.ResponseSett
 	// parse first k-v pair, [KeyTag][KeyLength][KeyValue][ValueTag][ValueLength][ValueValue]
 	_, _, _, keyErr := p.ConsumeTag()
 	if keyErr != nil {
-		return wrapError(meta.ErrRead, "parse MapKey Tag error", err)
+		return wrapError(meta.ErrRead, "parse MapKey Tag error", keyErr)
 	}
 	mapKeyDesc := fd.Key()
 	isIntKey := (mapKeyDesc.Type() == proto.INT32) || (mapKeyDesc.Type() == proto.INT64) || (mapKeyDesc.Type() == proto.UINT32) || (mapKeyDesc.Type() == proto.UINT64)
 	if isIntKey {
 		*out = append(*out, '"')
 	}
-	if self.unmarshalSingular(ctx, resp, p, out, mapKeyDesc) != nil {
-		return wrapError(meta.ErrRead, "parse MapKey Value error", err)
+	if e := self.unmarshalSingular(ctx, resp, p, out, mapKeyDesc); e != nil {
+		return unwrapError("parse MapKey Value error", e)
 	}
 	if isIntKey {
 		*out = append(*out, '"')
@@ -344,11 +350,11 @@ func (self *BinaryConv) unmarshalMap(ctx context.Context, resp http.ResponseSett
 	*out = json.EncodeObjectColon(*out)
 	_, _, _, valueErr := p.ConsumeTag()
 	if valueErr != nil {
-		return wrapError(meta.ErrRead, "parse MapValue Tag error", err)
+		return wrapError(meta.ErrRead, "parse MapValue Tag error", valueErr)
 	}
 	mapValueDesc := fd.Elem()
-	if self.unmarshalSingular(ctx, resp, p, out, mapValueDesc) != nil {
-		return wrapError(meta.ErrRead, "parse MapValue Value error", err)
+	if e := self.unmarshalSingular(ctx, resp, p, out, mapValueDesc); e != nil {
+		return unwrapError("parse MapValue Value error", e)
 	}
 
 	// parse the remaining k-v pairs
@@ -366,18 +372,18 @@ func (self *BinaryConv) unmarshalMap(ctx context.Context, resp http.ResponseSett
 		// parse second length
 		_, lengthErr := p.ReadLength()
 		if lengthErr != nil {
-			return wrapError(meta.ErrRead, "parse Tag length error", err)
+			return wrapError(meta.ErrRead, "parse Tag length error", lengthErr)
 		}
 		// parse second [KeyTag][KeyLength][KeyValue][ValueTag][ValueLength][ValueValue]
 		_, _, _, keyErr = p.ConsumeTag()
 		if keyErr != nil {
-			return wrapError(meta.ErrRead, "parse MapKey Tag error", err)
+			return wrapError(meta.ErrRead, "parse MapKey Tag error", keyErr)
 		}
 		if isIntKey {
 			*out = append(*out, '"')
 		}
-		if self.unmarshalSingular(ctx, resp, p, out, mapKeyDesc) != nil {
-			return wrapError(meta.ErrRead, "parse MapKey Value error", err)
+		if e := self.unmarshalSingular(ctx, resp, p, out, mapKeyDesc); e != nil {
+			return unwrapError("parse MapKey Value error", e)
 		}
 		if isIntKey {
 			*out = append(*out, '"')
@@ -385,10 +391,10 @@ func (self *BinaryConv) unmarshalMap(ctx context.Context, resp http.ResponseSett
 		*out = json.EncodeObjectColon(*out)
 		_, _, _, valueErr = p.ConsumeTag()
 		if valueErr != nil {
-			return wrapError(meta.ErrRead, "parse MapValue Tag error", err)
+			return wrapError(meta.ErrRead, "parse MapValue Tag error", valueErr)
 		}
-		if self.unmarshalSingular(ctx, resp, p, out, mapValueDesc) != nil {
-			return wrapError(meta.ErrRead, "parse MapValue Value error", err)
+		if e := self.unmarshalSingular(ctx, resp, p, out, mapValueDesc); e != nil {
+			return unwrapError("parse MapValue Value error", e)
 		}
 	}
 
